@@ -5,6 +5,7 @@ pub mod c06;
 pub mod c10;
 pub mod c12;
 pub mod c13;
+pub mod c15;
 pub mod c18;
 
 pub fn dispatch(ctx: &Ctx, findings: &Findings) -> Option<PropReport> {
@@ -15,6 +16,7 @@ pub fn dispatch(ctx: &Ctx, findings: &Findings) -> Option<PropReport> {
         "C10" => c10::run(ctx, findings),
         "C12" => c12::run(ctx, findings),
         "C13" => c13::run(ctx, findings),
+        "C15" => c15::run(ctx, findings),
         "C18" => c18::run(ctx, findings),
         _ => return None,
     })
